@@ -96,6 +96,23 @@ class DerivCheckUnit(Unit):
                 rr = 0 if which == 0 else (r.randrange(spec.m) if which == 1 else r.randrange(spec.n))
                 cc = r.randrange(spec.n)
                 delta = r.choice([-1.0, 1.0]) * atol * r.choice([0.25, 0.5, 2.0, 4.0, 16.0])
+                if which in (1, 2) and r.random() < 0.25:
+                    # the wrong entry is a MISSING one: the only entry of its column is dropped from the provided
+                    # derivative, which leaves the column structurally empty (affine rows / constant Hessian, so that the
+                    # provided value is exactly zero at every point)
+                    v = r.choice([-4.0, -2.0, 2.0, 4.0])
+                    n_, m_ = spec.n, spec.m
+                    spec.A = [[[0.0] * n_ for _ in range(n_)] for _ in range(m_)]
+                    if which == 1:
+                        for i in range(m_):
+                            spec.B[i][cc] = 0.0
+                        spec.B[rr][cc] = v
+                    else:
+                        rr = cc
+                        for i in range(n_):
+                            spec.P[i][cc] = spec.P[cc][i] = 0.0
+                        spec.P[cc][cc] = v
+                    delta = -v
                 corrupt = [which, rr, cc, delta]
             cases.append({"spec": spec.to_json(), "sc": sc, "corrupt": corrupt, "x0": x0, "y0": y0,
                           "first": r.random() < 0.85, "second": r.random() < 0.85, "eps": 2.0 ** -10, "atol": atol,
@@ -154,6 +171,12 @@ class DerivCheckUnit(Unit):
                 # far above tolerance (atol + rtol*|entry| + truncation): must be reported, at that entry
                 if r["res"] is None:
                     return "missed: an entry wrong by %r (tolerance %r) was accepted" % (e, case["atol"])
+                if well_scaled:
+                    rows, col = r["res"]
+                    want_row = 0 if which == 0 else rr
+                    if col != cc or list(rows) != [want_row]:
+                        return "wrong_location: the only wrong entry is (row %d, column %d) but the error names rows %r of column %r" \
+                               % (want_row, cc, list(rows), col)
             if r["res"] is not None and not checked and (which in (0, 1)) == case["first"]:
                 pass
         if r["res"] is None and not r.get("lambda_error"):
